@@ -269,10 +269,6 @@ def r_forkid(H, fk, script, t, n_in, amount, ht):
     return r_bip143(H, script, t, n_in, amount, ht | (fk << 8))
 
 
-def r_sig_pattern_excluded(sg):
-    return len(sg) == 1 and (1 <= sg[0] <= 16 or sg[0] == 0x81)
-
-
 # ================================================================================================
 # generators
 MEANINGFUL = [1, 2, 3, 0x81, 0x82, 0x83, 0x41, 0x42, 0x43, 0xC1, 0xC2, 0xC3]
@@ -403,6 +399,29 @@ def gen_scenario(rng, wf=True):
     return t, script, idx, sigs
 
 
+def boundary_scenarios():
+    """compact-size thresholds: script code of 252..254 / 65535..65537 bytes (with separators), 253 inputs, 253 / 300 outputs"""
+    res = []
+    h = bytes(range(32))
+    base = {"v": 2, "lock": 7, "ins": [(h, 1, b"\x51", 0xFFFFFFFE)], "outs": [(5000, b"\x51")], "uns": [(7000, b"\x51")]}
+    for total in (252, 253, 254, 255, 256, 65535, 65536, 65537, 65538):
+        for nsep in (0, 1, 2):
+            body = total - nsep - 1
+            push = r_push(b"\xab" * (body - (1 if body <= 76 else 2 if body <= 257 else 3)))
+            script = b"\xab" * nsep + push
+            script += b"\x61" * (total - len(script))
+            res.append((dict(base), script[:total], 0))
+    many_in = dict(base, ins=[(h, k, b"", k) for k in range(253)], uns=[(k + 1, b"\x51") for k in range(253)])
+    res.append((many_in, b"\xab\xac", 252))
+    res.append((many_in, b"\xac", 0))
+    for n in (252, 253, 300):
+        many_out = dict(base, outs=[(k, bytes([0x51 + (k & 7)])) for k in range(n)],
+                        ins=[(h, k, b"", k) for k in range(n)], uns=[(k + 1, b"\x51") for k in range(n)])
+        res.append((many_out, b"\xac", n - 1))
+        res.append((many_out, b"\xac", 1))
+    return res
+
+
 # ================================================================================================
 # implementation thunks
 def _res(f, *a):
@@ -459,6 +478,14 @@ def model_cases(rng, tier):
                 h2 = hts[:12] + hts[-3:]
                 yield Case("segwit_preimage %s %s %s i%x %s" % (coin, toks, arg(script), idx, hts_arg(h2)),
                            (lambda coin=coin, t=t, script=script, idx=idx, h2=h2: impl_list(coin, t, "P", script, idx, h2)))
+    for t, script, idx in boundary_scenarios():
+        toks = tx_tokens(t)
+        hts = MEANINGFUL + [0]
+        for coin in ("BTC", "BTG", "GRS"):
+            for entry, fn in (("L", "sighash"), ("S", "sighash_segwit")):
+                yield Case("%s %s %s %s i%x %s" % (fn, coin, toks, arg(script), idx, hts_arg(hts)),
+                           (lambda coin=coin, t=t, entry=entry, script=script, idx=idx, hts=hts:
+                            impl_list(coin, t, entry, script, idx, hts)))
     # the script walks
     n_walk = 2500 if tier == "quick" else 60000
     for k in range(n_walk):
@@ -592,7 +619,6 @@ def chk_delsig(script, sg, expected):
     if got != expected:
         tail = r_undecodable_tail(script)
         return {"kind": "delete-signature", "got": got.hex(), "required": expected.hex(),
-                "sig_pattern_excluded": r_sig_pattern_excluded(sg),
                 "rewalk_hit": BSC(None)._delete_signature(tail, sg) != tail}
     return None
 
@@ -608,8 +634,7 @@ def chk_script_code(script, begin, sigs, expected):
             if BSC(None)._delete_signature(tl, sg) != tl:
                 tail_hit = True
             cur = BSC(None)._delete_signature(cur, sg)
-        return {"kind": "script-code", "got": got.hex(), "required": expected.hex(),
-                "sig_pattern_excluded": any(r_sig_pattern_excluded(s) for s in sigs), "rewalk_hit": tail_hit}
+        return {"kind": "script-code", "got": got.hex(), "required": expected.hex(), "rewalk_hit": tail_hit}
     return None
 
 
@@ -786,7 +811,10 @@ def prop_cases(rng, tier, use_driver=True):
 def _prop_chunk(rng, tier, use_driver, n_scen, n_fad, extras):
     spec = Spec()
     plan = []     # (name, inp, thunk)
-    for t, script, idx, sigs in (gen_scenario(rng, wf=True) for _ in range(n_scen)):
+    scen = [gen_scenario(rng, wf=True) for _ in range(n_scen)]
+    if extras:
+        scen += [(t, script, idx, []) for t, script, idx in boundary_scenarios()]
+    for t, script, idx, sigs in scen:
         toks = tx_tokens(t)
         hts = hash_types(rng, tier)
         jin = {"tx": tx_json(t), "script": script.hex(), "idx": idx, "hts": hts, "sigs": [s.hex() for s in sigs]}
@@ -852,7 +880,7 @@ def _prop_chunk(rng, tier, use_driver, n_scen, n_fad, extras):
         script = gen_script(rng, sigs, 0.25)
         sg = rng.choice(sigs)
         sub = b"\xab" if rng.random() < 0.4 else r_push(sg)
-        if not r_sig_pattern_excluded(sg) or sub == b"\xab":
+        if True:
             ka = spec.ask("spec_fad %s %s" % (arg(sub), arg(script)), (lambda sub=sub, script=script: canon(r_fad(sub, script))))
             plan.append(("fad_vs_spec", {"script": script.hex(), "sub": sub.hex()},
                          (lambda script=script, sub=sub, ka=ka: chk_fad(script, sub, bytes.fromhex(spec.get(ka)[1:])))))
@@ -929,8 +957,6 @@ def classify(pc, r):
     k = r.get("kind")
     if pc.name == "legacy_vs_spec" and k == "legacy-digest" and r.get("script_decodable") is False:
         return "undecodable-script-code"
-    if pc.name in ("delsig_vs_spec", "script_code_vs_spec") and r.get("sig_pattern_excluded"):
-        return "one-byte-signature-pattern"
     if pc.name in ("fad_vs_spec", "delsig_vs_spec", "script_code_vs_spec") and r.get("rewalk_hit"):
         return "undecodable-script-code"
     return None
@@ -938,8 +964,6 @@ def classify(pc, r):
 
 KNOWN_REPLAYS = {
     "undecodable-script-code": lambda: chk_fad(bytes.fromhex("ac0500ab"), b"\xab", r_fad(b"\xab", bytes.fromhex("ac0500ab"))),
-    "one-byte-signature-pattern": lambda: chk_delsig(bytes.fromhex("55010555"), b"\x05",
-                                                     r_script_code_base(bytes.fromhex("55010555"), [b"\x05"])),
 }
 
 
